@@ -254,6 +254,7 @@ func (s *stringObject) defineOwnPropertyIdx(idx valueInt, descr PropertyDescript
 type stringPropIter struct {
 	str         String // separate, because obj can be the singleton
 	obj         *stringObject
+	base        iterNextFunc // the non-index keys as of the start of the enumeration
 	idx, length int
 }
 
@@ -264,13 +265,14 @@ func (i *stringPropIter) next() (propIterItem, iterNextFunc) {
 		return propIterItem{name: asciiString(name), enumerable: _ENUM_TRUE}, i.next
 	}
 
-	return i.obj.baseObject.iterateStringKeys()()
+	return i.base()
 }
 
 func (s *stringObject) iterateStringKeys() iterNextFunc {
 	return (&stringPropIter{
 		str:    s.value,
 		obj:    s,
+		base:   s.baseObject.iterateStringKeys(),
 		length: s.length,
 	}).next
 }
